@@ -7,6 +7,7 @@ import (
 	"encoding/json"
 	"fmt"
 	"os"
+	"sort"
 	"strings"
 	"testing"
 	"unicode/utf8"
@@ -290,6 +291,24 @@ func c16Specs(thorough bool, fn func(s ttSpec)) {
 											fn(ttSpec{Cells: cells, Shrink: shrink})
 										}
 									}
+									// a vertical rule in the MIDDLE of the table: a column whose only cell has an empty value
+									// and the margin " │", drawn on the first body row only (the second has no cell there),
+									// with columns after it
+									if sh == 0 && mg == "d" {
+										for ruleCol := 0; ruleCol < 3; ruleCol++ {
+											if body[ruleCol] == 0 && body[3-ruleCol] == 0 {
+												rc := append([]ttCell{hdr}, base...)
+												rc = append(rc, ttCell{Row: 1, Col: ruleCol, Span: 1, Width: 0, Align: "L", Margin: " │"})
+												sort.SliceStable(rc, func(i, j int) bool {
+													if rc[i].Row != rc[j].Row {
+														return rc[i].Row < rc[j].Row
+													}
+													return rc[i].Col < rc[j].Col
+												})
+												fn(ttSpec{Cells: rc, Shrink: shrink})
+											}
+										}
+									}
 									cells := append([]ttCell{hdr}, base...)
 									// a right-edge marker like benchtab's: empty value, margin " │"
 									if start+span < 4 && (sw == 9 || thorough) {
@@ -318,7 +337,7 @@ func c16Specs(thorough bool, fn func(s ttSpec)) {
 }
 
 func c16Texttab(c *mc.Check) {
-	f := c.Family("texttab-specs", "every table spec of the grammar: two body rows of single cells over 4 physical columns (every width pattern over {absent,1,4}, per-column alignment patterns) + a header cell spanning 2–4 columns at every start (content widths narrower and wider than the columns beneath, left/centre/right, default or ' │ ' margin, an empty right-edge marker cell) × all 16 shrink patterns; contents are unique tokens with multi-byte runes; oracle: every non-empty cell appears intact in its row, cells are in column order without overlap, left-aligned cells of a column start at one offset on every line, right-aligned cells ending at a column boundary end at one offset, a spanning cell stays inside the columns it spans, no line ends in a blank; non-trivial = the header is wider than the columns beneath it", c16ReplaySpec)
+	f := c.Family("texttab-specs", "every table spec of the grammar: two body rows of single cells over 4 physical columns (every width pattern over {absent,1,4}, per-column alignment patterns) + a header cell spanning 2–4 columns at every start (content widths narrower and wider than the columns beneath, left/centre/right, default or ' │ ' margin, an empty right-edge marker cell, a column holding nothing but a vertical rule in the middle of the table) × all 16 shrink patterns; contents are unique tokens with multi-byte runes; oracle: every non-empty cell appears intact in its row, cells are in column order without overlap, left-aligned cells of a column start at one offset on every line, right-aligned cells ending at a column boundary end at one offset, a spanning cell stays inside the columns it spans, no line ends in a blank; non-trivial = the header is wider than the columns beneath it", c16ReplaySpec)
 	if c.Replaying() {
 		return
 	}
